@@ -6,13 +6,24 @@ CFG = {
                   "canonical source, else by the ufrag before ':' and family, else drop; byte-identical payload, true source, FIFO; no "
                   "cross-ufrag delivery; nothing after removal/close and no binding left; v4 / v4-mapped / zoned forms dispatch alike). "
                   "The model is tied to the code by differential correspondence on generated op sequences against the real mux over a "
-                  "fake socket inside a synctest bubble, with the same monitor evaluated on the implementation's own outputs.",
+                  "fake socket inside a synctest bubble, with the same monitor evaluated on the implementation's own outputs. "
+                  "UniversalUDPMuxDefault is modelled as a layer on that model (per-server XOR-mapped-address table, GetXORMappedAddr "
+                  "calls in flight, virtual clock, GetConnForURL): proved for ALL operation sequences that the layer never changes the "
+                  "embedded mux (every datagram, also from a STUN server's address, goes where the rule says; nothing is diverted or "
+                  "swallowed), the interception rule in closed form, the layer's state invariant, and that the universal-mux monitor "
+                  "never reports a base clause on a model trace; the strict reading 'the layer takes only the answer to its own "
+                  "pending discovery request, and what it takes is not delivered as well' is FALSE of the code (witness theorems; "
+                  "candidate findings U1/U2 in notes/C12.md), so the generator feeds mapped-address-bearing STUN from a server address "
+                  "with a table entry only in the clean case unless VERIF_UDPMUXUNI_FULL=1.",
     "level_note": "Ties: C (sequential differential correspondence incl. the close-vs-datagram window op `closein`) every run; A (concurrent acceptance recorder + in-package inspection of the routing tables at quiescence) in the thorough tier. Trusted: Lean kernel (axioms propext/Classical.choice/Quot.sound); the correspondence harness and driver; "
                   "pion/stun decoding (IsMessage/Decode/USERNAME) and net/netip canonicalisation are mirrored by small Lean functions "
                   "(Kind, canonAddr) validated only by the correspondence; the concurrent interleavings of the real goroutines are "
                   "covered by the acceptance recorder (thorough tier), not by the theorems (sequential semantics, watcher explicit).",
     "components": [
         {"component": "udpmux", "session_start": "new", "trivial_regex": r"^(skip|error|bad-op.*|bad|ok|end ok)$",
+         "timeout_quick": 120, "timeout_thorough": 900, "shrink_s": 40},
+        # the universal mux: one real UniversalUDPMuxDefault per session over the same fake socket, virtual clock
+        {"component": "udpmuxuni", "session_start": "new", "trivial_regex": r"^(skip|error|bad-op.*|bad|ok|end ok|err:notimpl)$",
          "timeout_quick": 120, "timeout_thorough": 900, "shrink_s": 40},
         # tie A: concurrent acceptance recorder; emits nothing in the quick tier. A recorded history is evidence as a
         # whole, so it is not shrunk (every line carries its own data; a replay re-runs only the Lean acceptance check).
@@ -23,12 +34,18 @@ CFG = {
             "unspecified fake socket or a MultiUDPMuxDefault over three, AddrPort and net.Addr I/O paths, 1..4 ufrags, 2..6 remote "
             "addresses drawn from aliasing groups (v4 / v4-mapped / zoned / link-local), STUN with USERNAME (0, 1, several colons), "
             "without USERNAME, undecodable STUN-looking, non-STUN; biased towards remove / write-after-remove / re-register / close "
-            "patterns. Distinct = distinct (operation, output) lines; non-trivial = output is a handle, a delivery, a drop, a packet or an error.",
+            "patterns. udpmuxuni: quick 900 / thorough 12000 sessions (8..40 / 8..160 ops) on a real UniversalUDPMuxDefault (cache TTL 1 s, 3 s or the default 25 s): "
+            "GetXORMappedAddr calls (deadlines 0..5 s) started in goroutines, virtual time steps around the deadline and TTL boundaries, datagrams from server "
+            "and peer addresses sharing one pool (Binding success with / without / with malformed XOR-MAPPED-ADDRESS, own or foreign transaction id; error "
+            "response, indication, request with and without USERNAME carrying the attribute; the udpmux kinds), GetConnForURL, GetConn, writes, reads, "
+            "RemoveConnByUfrag, closes, table inspection. Distinct = distinct (operation, output) lines; non-trivial = output is a handle, a delivery, a drop, a packet or an error.",
     "lean_targets": ["IceProps.C12", "IceProofs.UdpMuxLegacy"],
     "translated": [],
     "trusted_base": ["pion/stun Decode / IsMessage / USERNAME extraction (payload kinds are abstract in the model)",
                      "net/netip Unmap / WithZone / IsLinkLocal* and net.UDPAddr.AddrPort/String mirrored by canonAddr / localKey (validated by correspondence)",
                      "testing/synctest quiescence (synctest.Wait) as the meaning of 'the watcher has run'"],
     "assumptions": ["sequential semantics: one public call or one goroutine step at a time; the close watcher is the explicit op watcherRun",
-                    "packets never exceed receiveMTU (the ErrShortBuffer branches are not modelled)"],
+                    "packets never exceed receiveMTU (the ErrShortBuffer branches are not modelled)",
+                    "universal mux: a GetXORMappedAddr call is one atomic step up to its return or its select (synctest quiescence after every operation); "
+                    "context cancellation of GetXORMappedAddrContext and concurrent interleavings inside the universal layer are not driven"],
 }
